@@ -6,7 +6,7 @@ from ..gen import ev_tok, AUTHORS
 from ..storecheck import HistGen
 from ..conc import forced, STORE_POINTS
 
-THEOREMS = ['classify', 'one_per_address', 'store_older', 'frame', 'step_addrUniq', 'classification_from_source', 'address_padding_from_source']
+THEOREMS = ['classify', 'one_per_address', 'store_older', 'frame', 'step_addrUniq', 'classification_from_source', 'address_padding_from_source', 'spec_one_per_address']
 
 
 def races(c, runner):
